@@ -87,6 +87,77 @@ CLAIMED = {
         note='Trusted: CPython reference counting + gc.collect(); POSIX '
              'unlink semantics; harness reference hygiene (histories run in '
              'their own frame, exceptions never stored).'),
+    'C15': dict(
+        level='exploration', ref='§3 C15',
+        technique='deterministic simulation: history machine of to*/append*/'
+                  'from* on a simulated byte store (visibility on flush/'
+                  'close, fragmented reads, handle accounting) and real '
+                  'gzip/bz2/file targets, against a content model',
+        text='Histories of 1..4 TO/APPEND operations per target, read back '
+             'through a fresh handle after every write, for csv/tsv/pickle/'
+             'json/jsonlines/jsonarrays/text x 7 target kinds x encodings x '
+             'dialect arguments x header flags, with cells rich in '
+             'delimiter/quote/CR/LF/NUL/non-ASCII/astral characters; oracle: '
+             'stdlib csv on an in-memory text buffer (and the identity for '
+             'text cells), exact for pickle, JSON types for json; '
+             'to+append bytes equal to(cat); no handle left open. Sampled.',
+        note='Trusted: stdlib csv/json/pickle/gzip/bz2 and the OS file '
+             'system; cases where the stdlib reference raises are '
+             'inapplicable. Two recorded findings (BOM-carrying encodings on '
+             'compressed targets) are listed in known_findings.json.'),
+    'C16': dict(
+        level='exploration', ref='§3 C16',
+        technique='deterministic simulation: tee sinks on the simulated '
+                  'store compared byte-for-byte with to*, progress/clock '
+                  'under a simulated clock with stalls and jumps, cache(n) '
+                  'under iterator schedules',
+        text='tee{csv,tsv,pickle,text,html} with drawn arguments: rows '
+             'yielded equal the wrapped rows and the sink equals what the '
+             'matching to* writes, after full passes, after abandoned '
+             'passes followed by a full one, and after a second pass, with '
+             'no handle left open; progress/log_progress/clock under a '
+             'simulated clock (stall, forward/backward jump, coarse '
+             'resolution) for all batch sizes around n; cache(n)/wrap under '
+             'schedules of 2..3 iterators. Sampled.',
+        note='Trusted: the to* writers as the byte reference (a to* call '
+             'that raises makes the case inapplicable); SimClock replaces '
+             'the time module inside petl.util.timing only.'),
+    'C17': dict(
+        level='fault_enumeration', ref='§3 C17',
+        technique='deterministic simulation with fault enumeration: source '
+                  'failure injected at every row index x handle kind x '
+                  'commit flag on real sqlite3 file databases; oracle = '
+                  'table model read through a fresh connection',
+        text='For every sampled scenario (table, prior contents, history '
+             'prefix, raw or pipelined source) and every combination of '
+             '{todb, appenddb} x {file name, connection, cursor, cursor '
+             'factory} x commit flag (thorough: all 16 per scenario) the '
+             'failure is injected at every index 0..n+1 and as a malformed '
+             'row at every data row, each on a fresh database; a fresh '
+             'connection must see exactly the model contents after the '
+             'call, after caller commit/rollback, and after a follow-up '
+             'load; fromdb must return what was written.',
+        note='Trusted: sqlite3 with default transactional connections; '
+             'autocommit connections, SQLAlchemy handles and create=True '
+             'are out of scope (not importable / not transactional).'),
+    'C19': dict(
+        level='fault_enumeration', ref='§3 C19',
+        technique='deterministic simulation with fault enumeration: '
+                  'failures injected into user callbacks at every subset of '
+                  'row (and field) positions x 3 policies x argument-vs-'
+                  'config; oracle = policy model',
+        text='16 operator forms (convert in all its argument forms, '
+             'convertall, convertnumbers, format(all), interpolate(all), '
+             'fieldmap, rowmap incl. lazily failing mappers, rowmapmany with '
+             'partial output) on tables of n <= 6 rows; inside each scenario '
+             'every subset of failing positions x {False, True, inline} x '
+             '{argument, petl.config.failonerror at construction} is run, '
+             'with plain / StopIteration / KeyError failures and one or two '
+             'interleaved consumers; expected rows, the surfaced exception '
+             'object and its position come from a small policy model.',
+        note='Trusted: the policy model in checks/c19.py; injected '
+             'exceptions are identified by object identity, natural '
+             'failures by type.'),
 }
 
 NOT_APPLICABLE = {
